@@ -135,10 +135,12 @@ def creation_sql(catalog: str) -> str:
     """
 
 
-def insert_table_comment_sql(catalog: str, schema: str, table: str, comment: str) -> str:
+def insert_table_comment_sql(catalog: str, schema: str, table: str, comment: str | None) -> str:
+    # escape single quotes, and no comment is null rather than the string 'None'
+    comment_literal = "NULL" if comment is None else "'" + comment.replace("'", "''") + "'"
     return f"""
         INSERT INTO {catalog}.information_schema._fs_tables_ext
-        values ('{catalog}', '{schema}', '{table}', '{comment}')
+        values ('{catalog}', '{schema}', '{table}', {comment_literal})
         ON CONFLICT (ext_table_catalog, ext_table_schema, ext_table_name)
         DO UPDATE SET comment = excluded.comment
     """
